@@ -710,6 +710,10 @@ impl Pair {
         let offer = self.step_offer().await?;
         self.step_set_local_offer(&offer)?;
         self.step_set_remote_offer(&offer).await?;
+        // schedule "slowAnswer": the answering application takes its time (a callee picks up) before create_answer
+        if self.cfg.sched == "slowAnswer" {
+            tokio::time::sleep(Duration::from_millis(300)).await;
+        }
         let answer = self.step_answer().await?;
         self.step_set_local_answer(&answer)?;
         self.step_set_remote_answer(&answer).await?;
